@@ -10,7 +10,7 @@ Import String.StringSyntax.
 From DT Require Import PyStr Sexp PyVal TyExpr PureUtils Defaults PyAst IR Merge EmitAst C16Spec C16RoundTrip.
 From DT Require ParseSig ParseAst.
 From DT Require Import PyStrFacts EmitAstFacts C16Facts.
-From DT Require C06Spec C06Facts.
+From DT Require C06Spec C06Facts MergeFacts.
 Import ListNotations.
 
 (* ================================================================== generic *)
@@ -946,4 +946,147 @@ Lemma rt_function_side_conditions_needed :
                    /\ body_stmts b = [SExpr (EName (L "x"))]).
 Proof.
   split; (split; [vm_compute; reflexivity|]); eexists; split; vm_compute; reflexivity.
+Qed.
+
+(* ================================================================== class: inside guard_rt_class *)
+(* nothing to carry: the emitted class body is the docstring, one annotated assignment per attribute, and no
+   other statement - except the __call__ emit.class_ makes from the return entry when emit_call is set and the
+   class has attributes and a return_type *)
+Lemma class_attrs_assignments : forall pt (l : list (str * gparam)) attrs,
+    map_outcome (fun kv => do r <- param2ast pt (fst kv) (snd kv); Ok (fst r)) l = Ok attrs ->
+    Forall (fun s => ParseAst.is_assignment s = true) attrs.
+Proof.
+  intros pt l attrs H. apply map_outcome_Forall2 in H.
+  induction H as [|kv y l' ys Hy Hr IH]; constructor; [|exact IH].
+  apply bind_Ok in Hy. destruct Hy as [[s g'] [Hp Hy]]. injection Hy as <-.
+  apply C06Facts.param2ast_shape in Hp. destruct Hp as [a [v Hs]]. cbn [fst]. subst s. reflexivity.
+Qed.
+
+Lemma class_extras_attrs : forall attrs, Forall (fun s => ParseAst.is_assignment s = true) attrs -> class_extras attrs = [].
+Proof.
+  intros attrs H. unfold class_extras. induction H as [|x r Hx Hr IH]; cbn; [reflexivity|]. rewrite Hx. exact IH.
+Qed.
+
+Lemma class_extras_app : forall a b, class_extras (a ++ b) = class_extras a ++ class_extras b.
+Proof. intros a b. unfold class_extras. apply filter_app. Qed.
+
+(* the only non-attribute statement emit.class_ can add on its own: the __call__ made from the return entry *)
+Definition generated_call (pt : ptable) (i : ir) (emit_call ww : bool) (meth : list stmt) : Prop :=
+  meth = []
+  \/ (emit_call = true /\ ir_params i <> []
+      /\ exists p m, ir_returns i = Has p
+                     /\ call_meth_of_dict pt (od_keys (ir_params i)) ww p = Ok m /\ meth = [m]).
+
+Lemma emit_class_nothing_to_carry : forall pt i ec cn bases decos ww tds n' bs' body' dc' i2,
+    emit_class pt i ec cn bases decos ww tds = Ok (SClass n' bs' body' dc', i2) ->
+    (match ir_internal i with Some it0 => in_body it0 | None => [] end) = [] ->
+    exists text attrs meth,
+      tds = Ok text
+      /\ body' = SExpr (set_value (VStr (class_docstring text))) :: attrs ++ meth
+      /\ Forall (fun s => ParseAst.is_assignment s = true) attrs
+      /\ generated_call pt i ec ww meth.
+Proof.
+  intros pt i ec cn bases decos ww tds n' bs' body' dc' i2 H Hb. unfold emit_class in H. rewrite Hb in H.
+  apply bind_Ok in H. destruct H as [ib [Hib H]].
+  apply bind_Ok in H. destruct H as [text [Htds H]].
+  apply bind_Ok in H. destruct H as [meth [Hm H]].
+  apply bind_Ok in H. destruct H as [attrs [Ha H]].
+  injection H as _ _ Hbody _ _. subst body'.
+  exists text, attrs, meth. split; [exact Htds|]. split; [reflexivity|].
+  split; [eapply class_attrs_assignments; exact Ha|].
+  unfold generated_call. destruct ec; [|injection Hm as <-; now left].
+  destruct (ir_params i) as [|[k0 g0] ps] eqn:Ep.
+  - cbn [od_keys map] in Hib. injection Hib as <-. injection Hm as <-. now left.
+  - cbn [od_keys map fst] in Hib.
+    destruct (ir_returns i) as [| |p] eqn:Er; injection Hib as <-; try (injection Hm as <-; now left).
+    unfold class_fold_returns in Hm. rewrite Er in Hm. cbn [ir_params] in Hm.
+    rewrite MergeFacts.od_get_set_same in Hm.
+    destruct (gparam_nonempty p); [|injection Hm as <-; now left].
+    apply bind_Ok in Hm. destruct Hm as [m [Hcm Hm]]. injection Hm as <-.
+    right. split; [reflexivity|]. split; [discriminate|]. exists p, m.
+    split; [reflexivity|]. split; [exact Hcm | reflexivity].
+Qed.
+
+Lemma generated_call_extras : forall pt i ec ww meth, generated_call pt i ec ww meth -> class_extras meth = meth.
+Proof.
+  intros pt i ec ww meth [->|(_ & _ & p & m & _ & Hcm & ->)]; [reflexivity|].
+  unfold call_meth_of_dict in Hcm.
+  apply bind_Ok in Hcm. destruct Hcm as [ds [_ Hcm]]. apply bind_Ok in Hcm. destruct Hcm as [ret [_ Hcm]].
+  injection Hcm as <-. reflexivity.
+Qed.
+
+Lemma rt_class_partial_lemma :
+  forall di nm bs cbody dc pn it pww pt ec cn bases decos ww tds n' bs' body' dc' i2,
+    rt_class di (ParseAst.CStmt (SClass nm bs cbody dc)) pn it pww pt ec cn bases decos ww tds
+    = Ok (SClass n' bs' body' dc', i2) ->
+    guard_rt_class (SClass nm bs cbody dc) ec = true ->
+    exists i text attrs meth,
+      ParseAst.parse_class di (ParseAst.CStmt (SClass nm bs cbody dc)) pn it pww = Ok i
+      /\ tds = Ok text
+      /\ body' = SExpr (set_value (VStr (class_docstring text))) :: attrs ++ meth
+      /\ Forall (fun s => ParseAst.is_assignment s = true) attrs
+      /\ generated_call pt i ec ww meth
+      /\ class_extras (body_stmts body') = class_extras (body_stmts cbody) ++ meth.
+Proof.
+  intros di nm bs cbody dc pn it pww pt ec cn bases decos ww tds n' bs' body' dc' i2 H G.
+  unfold guard_rt_class, finding_class_rt_class in G.
+  destruct (class_extras (body_stmts cbody)) as [|s0 rest] eqn:Ee; [|discriminate]. clear G.
+  unfold rt_class in H. apply bind_Ok in H. destruct H as [i [Hp He]].
+  pose proof (parse_class_internal _ _ _ _ _ _ _ _ _ Hp) as Hint. rewrite Ee in Hint.
+  assert (Hb : match ir_internal i with Some it0 => in_body it0 | None => [] end = []) by now rewrite Hint.
+  destruct (emit_class_nothing_to_carry _ _ _ _ _ _ _ _ _ _ _ _ _ He Hb) as (text & attrs & meth & Htds & Hbody & Hattrs & Hgen).
+  exists i, text, attrs, meth. repeat (split; [assumption|]).
+  subst body'. rewrite body_stmts_docstring, class_extras_app, (class_extras_attrs _ Hattrs).
+  cbn [app]. eapply generated_call_extras; eauto.
+Qed.
+
+Lemma rt_class_partial_no_call_lemma :
+  forall di nm bs cbody dc pn it pww pt cn bases decos ww tds n' bs' body' dc' i2,
+    rt_class di (ParseAst.CStmt (SClass nm bs cbody dc)) pn it pww pt false cn bases decos ww tds
+    = Ok (SClass n' bs' body' dc', i2) ->
+    guard_rt_class (SClass nm bs cbody dc) false = true ->
+    class_extras (body_stmts body') = class_extras (body_stmts cbody).
+Proof.
+  intros di nm bs cbody dc pn it pww pt cn bases decos ww tds n' bs' body' dc' i2 H G.
+  destruct (rt_class_partial_lemma _ _ _ _ _ _ _ _ _ _ _ _ _ _ _ _ _ _ _ _ H G)
+    as (i & text & attrs & meth & _ & _ & _ & _ & Hgen & Hex).
+  rewrite Hex. destruct Hgen as [->|(Hec & _)]; [apply app_nil_r | discriminate].
+Qed.
+
+(* ---- class witnesses ---- *)
+Lemma rt_class_witness_class : forall ec, finding_class_rt_class wc_class ec = Some rt_class_class_name.
+Proof. intros ec. reflexivity. Qed.
+
+(* a class whose only method is __call__: the method is nested inside the generated __call__ all the same *)
+Definition wc_call : stmt :=
+  SFunc (L "__call__") (mkArguments [mkArg (L "self") None] [] [] [] None None)
+        [SReturn (Some (EAttr (EName (L "self")) (L "a")))] [] None.
+Definition wc_attr : stmt := SAnnAssign (EName (L "a")) (EName (L "int")) (Some (EConst (VInt 1))).
+Definition wc_call_class : stmt := SClass (L "C") [] [SExpr (EConst (VStr (L "doc"))); wc_attr; wc_call] [].
+
+Definition wc_run_of (cls : stmt) (emit_call : bool) : outcome (stmt * ir) :=
+  rt_class (Some (Ok wc_doc)) (ParseAst.CStmt cls) None false true [] emit_call (L "C") [] [] false (Ok (L "DOC")).
+
+Lemma rt_class_call_only_witness :
+  finding_class_rt_class wc_call_class true = Some rt_class_class_name
+  /\ exists doc attr, class_body_of (wc_run_of wc_call_class true) = Some [doc; attr; call_meth [wc_call]].
+Proof. split; [reflexivity|]. eexists; eexists; vm_compute; reflexivity. Qed.
+
+(* non-vacuity of the guard: attributes only; and with a return_type attribute, where emit_call adds the
+   generated __call__ (the second case of generated_call is inhabited) *)
+Definition wc_attrs_class : stmt := SClass (L "C") [] [SExpr (EConst (VStr (L "doc"))); wc_attr] [].
+Definition wc_ret_class : stmt :=
+  SClass (L "C") [] [SExpr (EConst (VStr (L "doc"))); wc_attr;
+                     SAnnAssign (EName (L "return_type")) (EName (L "int")) (Some (EConst (VInt 5)))] [].
+
+Lemma rt_class_nonvacuous_lemma :
+  guard_rt_class wc_attrs_class true = true /\ guard_rt_class wc_ret_class true = true
+  /\ (exists doc, class_body_of (wc_run_of wc_attrs_class true) = Some [doc; wc_attr])
+  /\ (exists doc ret, class_body_of (wc_run_of wc_ret_class true)
+                      = Some [doc; wc_attr; ret; call_meth [SReturn (Some (EConst (VInt 5)))]])
+  /\ (exists doc ret, class_body_of (wc_run_of wc_ret_class false) = Some [doc; wc_attr; ret]).
+Proof.
+  split; [reflexivity|]. split; [reflexivity|].
+  split; [eexists; vm_compute; reflexivity|].
+  split; eexists; eexists; vm_compute; reflexivity.
 Qed.
